@@ -11,6 +11,37 @@ import (
 
 // mainLoop returns the loop of fn that contains a blocking select (the actor loop).
 func mainLoop(fn *ssa.Function) *Loop {
+	if l := mainLoopIn(fn); l != nil {
+		return l
+	}
+	// the loop may have been moved into a private helper that the actor function calls
+	// exactly once, synchronously ("run() { …; x.serve(…); … }")
+	var found *Loop
+	n := 0
+	for _, b := range fn.Blocks {
+		for _, in := range b.Instrs {
+			call, ok := in.(*ssa.Call)
+			if !ok {
+				continue
+			}
+			g := call.Call.StaticCallee()
+			if g == nil || g.Pkg != fn.Pkg || g.Blocks == nil || g == fn || neverInlined(g) {
+				continue
+			}
+			if l := mainLoopIn(g); l != nil {
+				l.Via = call
+				found = l
+				n++
+			}
+		}
+	}
+	if n == 1 {
+		return found
+	}
+	return nil
+}
+
+func mainLoopIn(fn *ssa.Function) *Loop {
 	loops := findLoops(fn)
 	var best *Loop
 	for _, l := range loops {
@@ -76,7 +107,7 @@ func checkFilterSubscriptionTable(c *Ctx) {
 	isL := func(t *Term) bool { return t != nil && t.K == "extract" && t.S == "0" && isParentListCall(t.A[0]) }
 	armOf := func(pa *Path) (string, *Effect) {
 		for _, e := range pa.Effects {
-			if e.Kind == "select" && e.Blocking && e.Depth == 0 {
+			if e.Kind == "select" && e.Blocking {
 				if e.Arm < 0 {
 					return "?", e
 				}
